@@ -8,7 +8,7 @@ TYPE_DEFAULT = {'EInt': [2, 0], 'EString': [0, 0], 'EBoolean': [4, 0], 'EDouble'
 OPCODE = {'set': 1, 'unset': 2, 'del': 3, 'assign': 4, 'append': 5, 'add': 5, 'insert': 6, 'remove': 7, 'pop': 8,
           'clear': 9, 'extend': 10, 'update': 10, 'iadd': 10, 'setitem': 11, 'delitem': 12, 'delete': 13,
           'rappend': 14, 'rremove': 15, 'rextend': 16, 'read': 17}
-MODELLED = set(OPCODE) | {'extendself'}
+MODELLED = set(OPCODE) | {'extendself', 'extendfrom'}
 
 
 def vtok(v):
